@@ -4,3 +4,5 @@ import OsuModel.TimeConv
 import OsuModel.Spectral
 import OsuModel.Interp
 import OsuModel.Dispersion
+import OsuModel.TimeSeries
+import OsuModel.SpectrumObj
